@@ -317,7 +317,10 @@ def run_engine_check(pid, tier, seed, wd):
     rnd = os.path.join(wd, "random.ndjson")
     ntr, ln_ = (8000, 150) if thorough else (220, 50)
     rs = harness_json(["engine-rand", "--seed", str(seed), "--traces", str(ntr), "--len", str(ln_),
-                       "--keys", "12" if thorough else "9", "--policies", ",".join(sorted(spec["pols"])), "--out", rnd],
+                       "--keys", "12" if thorough else "9", "--policies", ",".join(sorted(spec["pols"])),
+                       # the extreme weight only where no score clause is judged (C04, C16)
+                       "--weights", ",".join(["none", "0.1", "0.3", "1", "1.5", "3"] + (["5000"] if "5000" in ENGINE[pid]["weights"] else [])),
+                       "--out", rnd],
                       timeout=3000)
     tv = validate_file("Trace", tcfg, rnd, pid + "_rand", nshards=14, timeout=3000)
     if tv["errors"]:
